@@ -206,7 +206,7 @@ def check_spline(case, ctx):
 # ---------------------------------------------------------------- large data sets (thousands of rows, a few forces)
 @st.composite
 def large_cases(draw):
-    return dict(n=draw(st.sampled_from([2100, 3000, 5000])), k=draw(st.integers(8, 40)), seed=draw(st.integers(0, 10**6)), scale=draw(st.sampled_from([1.0, 1e3, 1e-2])),
+    return dict(n=draw(st.sampled_from([2100, 3000, 5000])), k=draw(st.one_of(st.integers(8, 40), st.sampled_from([250, 400]))), seed=draw(st.integers(0, 10**6)), scale=draw(st.sampled_from([1.0, 1e3, 1e-2])),
                 offset=draw(st.sampled_from([0.0, 0.0, 1e4])), damping=draw(st.sampled_from([None, 1e-6, 1e-3, 1e-1, 10.0])), weights=draw(st.booleans()),
                 model=draw(st.sampled_from(["spline", "spline", "vector", "trend"])), poisson=draw(st.sampled_from([0.5, -1.0, 0.0])), degree=draw(st.integers(1, 3)))
 
